@@ -9,6 +9,9 @@ def check_calc(mod, tier, seed, extra_modules=()):
     """mod provides PID, generate(seeds, tier) -> (GenFile, stats), search(seed, tier) -> list of failing inputs,
     optional STATIC = [(module, namespace, [theorem names])] of hand-written theorems."""
     rep = Report(mod.PID, tier, seed)
+    from . import disturb
+    if getattr(mod, 'DISTURB', True):
+        disturb.install()      # decoy instances and warm-up calls around every condition's enforce (see disturb.py)
     broken = []          # reasons why the proof / tie does not stand
     n_seeds = 3 if tier == 'quick' else 12
     seeds = [seed * 1000 + i for i in range(n_seeds)]
@@ -25,14 +28,19 @@ def check_calc(mod, tier, seed, extra_modules=()):
         path = os.path.join(LEAN, 'NdeVerif', 'Gen', f'{mod.PID}.lean')
         g.write(path)
         names = [o.name for o in g.obligations]
+        for part in getattr(g, 'parts', []):
+            part.write(os.path.join(LEAN, 'NdeVerif', 'Gen', f'{part.pid}.lean'))
+        if getattr(g, 'parts', []):
+            # one lake invocation for all modules of the property: independent modules are elaborated in parallel; the
+            # kernel_phase calls below then find them built (or rebuild just the failing one to collect its errors)
+            from .runner import Lock, run
+            with Lock():
+                run(['lake', 'build', f'NdeVerif.Gen.{mod.PID}'] + [f'NdeVerif.Gen.{part.pid}' for part in g.parts], cwd=LEAN, timeout=3000)
         ok, hits = kernel_phase(rep, f'NdeVerif.Gen.{mod.PID}', g.ns, names)
         if hits:
             print('forbidden tokens in Lean sources:', hits)
             rep.finish()
             return 2
-        for part in getattr(g, 'parts', []):
-            ppath = os.path.join(LEAN, 'NdeVerif', 'Gen', f'{part.pid}.lean')
-            part.write(ppath)
         for part in getattr(g, 'parts', []):
             ok2, hits2 = kernel_phase(rep, f'NdeVerif.Gen.{part.pid}', part.ns, [o.name for o in part.obligations], tag=part.pid)
             ok = ok and ok2
@@ -42,7 +50,7 @@ def check_calc(mod, tier, seed, extra_modules=()):
             ok2, _ = kernel_phase(rep, module, ns, thms, tag=mod.PID + '_static')
             ok = ok and ok2
         if g.failures:
-            rep.coverage['certificates_not_found'] = g.failures
+            rep.coverage.setdefault('certificates_not_found', []).extend(g.failures)
         if not ok:
             broken.append(dict(kind='proof', failed=rep.failed))
         rep.coverage.update(
@@ -56,6 +64,7 @@ def check_calc(mod, tier, seed, extra_modules=()):
             generated_file=os.path.relpath(path, ROOT))
         allobl = g.obligations + [o for part in getattr(g, 'parts', []) for o in part.obligations]
         rep.samples = [dict(theorem=o.name, statement=o.statement[:400], meaning=o.what) for o in allobl[:: max(1, len(allobl) // 10)]]
+    rep.coverage['hostile_environment'] = disturb.stats()
     rep.assumptions = list(getattr(mod, 'ASSUMPTIONS', []))
     # optional second engine of the property (a hand-written model with its own correspondence)
     extra_failing = []
